@@ -9,6 +9,8 @@ WORK = os.path.join(VERIF, "work")
 REPLAYS = os.path.join(VERIF, "replays")
 EVIDENCE = os.path.join(VERIF, "evidence")
 TLA_JAR = "/opt/veriftools/tla/tla2tools.jar"
+JAVA_TLC = ["java", "-Xss512m", "-XX:+UseParallelGC", "-cp",
+            TLA_JAR + ":/opt/veriftools/tla/CommunityModules-deps.jar", "tlc2.TLC"]
 
 
 class ToolError(Exception):
@@ -79,16 +81,16 @@ def _run_tlc(module, cfg, workers=4, timeout=900, env_extra=None, simulate=None,
     """Run TLC on spec/<module>.tla with spec/mc/<cfg>. PrintT'd <<"TAG", json>> lines are collected."""
     wd = workdir(tag)
     meta = os.path.join(wd, "meta")
-    jopts = f"-Xss512m -Xmx{heap}"
+    jopts = f"-Xmx{heap}"
     if dfs:
         jopts += " -Dtlc2.tool.queue.IStateQueue=StateDeque"
     env = dict(os.environ, JAVA_TOOL_OPTIONS=jopts)
     if env_extra:
         env.update(env_extra)
-    cmd = ["timeout", str(timeout), "java", "-cp", TLA_JAR + ":/opt/veriftools/tla/CommunityModules-deps.jar",
-           "tlc2.TLC"]
-    # use the wrapper on PATH (it carries the CommunityModules classpath)
-    cmd = ["timeout", str(timeout), "tlc", "-workers", str(workers), "-metadir", meta, "-cleanup",
+    # java is invoked directly (same classpath as the `tlc` wrapper) so that -Xss is on the command
+    # line: the launcher sizes the MAIN thread from it, and TLC evaluates initial states, ASSUMEs and
+    # the invariants of initial states on the main thread (JAVA_TOOL_OPTIONS is read too late for that)
+    cmd = ["timeout", str(timeout)] + JAVA_TLC + ["-workers", str(workers), "-metadir", meta, "-cleanup",
            "-noGenerateSpecTE", "-config", os.path.join(SPEC, "mc", cfg)]
     if simulate:
         cmd += ["-simulate", f"num={simulate}"]
@@ -164,10 +166,10 @@ def validate_trace(module, cfg, trace_path, timeout=900, heap="3g", env_extra=No
     Returns (TlcResult, rejection) where rejection is None or {'at': n, 'ev': {...}} / {'invariant': text}."""
     wd = workdir(tag)
     env = dict(os.environ, TRACE=trace_path,
-               JAVA_TOOL_OPTIONS=f"-Xss512m -Xmx{heap} -Xms1g -Xmn512m -XX:ParallelGCThreads=2")
+               JAVA_TOOL_OPTIONS=f"-Xmx{heap} -Xms1g -Xmn512m -XX:ParallelGCThreads=2")
     if env_extra:
         env.update(env_extra)
-    cmd = ["timeout", str(timeout), "tlc", "-workers", "1", "-metadir", os.path.join(wd, "meta"), "-cleanup",
+    cmd = ["timeout", str(timeout)] + JAVA_TLC + ["-workers", "1", "-metadir", os.path.join(wd, "meta"), "-cleanup",
            "-noGenerateSpecTE", "-config", os.path.join(SPEC, "mc", cfg), os.path.join(SPEC, module + ".tla")]
     t = time.time()
     p = subprocess.run(cmd, cwd=wd, env=env, stdout=subprocess.PIPE, stderr=subprocess.STDOUT, text=True)
